@@ -266,19 +266,45 @@ func (c *copier) fill() {
 	}
 }
 
-// copyGlobals deep-copies a set of global cells, preserving aliasing among them.
-func copyGlobals(src map[*ssa.Global]*Value) (map[*ssa.Global]*Value, int) {
+// copyGlobals deep-copies the global cells selected by want (nil = all), preserving aliasing among them.
+func copyGlobals(src map[*ssa.Global]*Value, want map[*ssa.Global]bool) (map[*ssa.Global]*Value, int) {
 	c := newCopier()
-	for _, p := range src {
-		c.walk(p)
+	for g, p := range src {
+		if want == nil || want[g] {
+			c.walk(p)
+		}
 	}
 	c.layout()
 	c.fill()
 	dst := make(map[*ssa.Global]*Value, len(src))
 	for g, p := range src {
-		dst[g] = c.ptr(p)
+		if want == nil || want[g] {
+			dst[g] = c.ptr(p)
+		}
 	}
 	return dst, c.cells
+}
+
+// snapshotT is an immutable image of all package-level state after initialisation. It is shared by
+// the workers; each path starts from a private deep copy of the globals its worker has touched so far.
+type snapshotT struct {
+	globals map[*ssa.Global]*Value
+	inited  map[*ssa.Package]bool
+	order   []*ssa.Package
+	cells   int
+}
+
+// retryPath aborts a path that touched a global for which the worker holds no private copy yet; the
+// path is re-run from the start with that global included.
+type retryPath struct{}
+
+func (s *snapshotT) covers(inited map[*ssa.Package]bool) bool {
+	for p := range inited {
+		if !s.inited[p] {
+			return false
+		}
+	}
+	return true
 }
 
 // beginPathGlobals installs the package-level state a path starts from.
@@ -286,27 +312,65 @@ func (it *Interp) beginPathGlobals() {
 	if it.cfg.KeepGlobals {
 		return
 	}
-	if it.pristine == nil {
+	it.sh.mu.Lock()
+	s := it.sh.snap
+	it.sh.mu.Unlock()
+	it.snap = s
+	if s == nil {
 		it.globals = map[*ssa.Global]*Value{}
 		it.inited = map[*ssa.Package]bool{}
 		it.initOrder = nil
 		return
 	}
-	it.globals, _ = copyGlobals(it.pristine)
-	it.inited = make(map[*ssa.Package]bool, len(it.pristineInited))
-	for p := range it.pristineInited {
+	it.globals, _ = copyGlobals(s.globals, it.touched)
+	it.inited = make(map[*ssa.Package]bool, len(s.inited))
+	for p := range s.inited {
 		it.inited[p] = true
+	}
+	it.initOrder = append(it.initOrder[:0], s.order...)
+}
+
+// snapshotGlobal is called for a global the current path has no private cell for.
+func (it *Interp) snapshotGlobal(g *ssa.Global) {
+	if it.snap == nil || it.building {
+		return
+	}
+	if _, ok := it.snap.globals[g]; ok {
+		it.touched[g] = true
+		panic(retryPath{})
 	}
 }
 
-// endPathGlobals refreshes the pristine snapshot when the finished path initialised packages that
-// the snapshot does not cover yet: all packages seen so far are initialised again, outside any
-// path, and copied.
+// endPathGlobals publishes a new snapshot when the finished path initialised packages that the
+// current one does not cover: all packages seen so far are initialised again, outside any path.
 func (it *Interp) endPathGlobals() {
-	if it.cfg.KeepGlobals || len(it.inited) == len(it.pristineInited) {
+	if it.cfg.KeepGlobals {
+		return
+	}
+	it.sh.mu.Lock()
+	s := it.sh.snap
+	it.sh.mu.Unlock()
+	if s != nil && s.covers(it.inited) {
 		return
 	}
 	order := it.initOrder
+	if s != nil {
+		// union, keeping the published order first
+		seen := map[*ssa.Package]bool{}
+		var u []*ssa.Package
+		for _, p := range s.order {
+			seen[p] = true
+			u = append(u, p)
+		}
+		for _, p := range order {
+			if !seen[p] {
+				seen[p] = true
+				u = append(u, p)
+			}
+		}
+		order = u
+	}
+	it.building = true
 	it.globals = map[*ssa.Global]*Value{}
 	it.inited = map[*ssa.Package]bool{}
 	it.initOrder = nil
@@ -328,10 +392,18 @@ func (it *Interp) endPathGlobals() {
 		}
 	}()
 	it.steps = saved
-	it.pristine, it.pristineCells = copyGlobals(it.globals)
-	it.pristineInited = make(map[*ssa.Package]bool, len(it.inited))
+	it.building = false
+	ns := &snapshotT{order: it.initOrder}
+	ns.globals, ns.cells = copyGlobals(it.globals, nil)
+	ns.inited = make(map[*ssa.Package]bool, len(it.inited))
 	for p := range it.inited {
-		it.pristineInited[p] = true
+		ns.inited[p] = true
 	}
-	it.snapshots++
+	it.sh.mu.Lock()
+	if it.sh.snap == nil || !it.sh.snap.covers(ns.inited) {
+		it.sh.snap = ns
+		it.sh.snapshots++
+		it.sh.snapCells = ns.cells
+	}
+	it.sh.mu.Unlock()
 }
